@@ -20,3 +20,28 @@ Theorem C06_adjacent_boundary_none :
   forall l a b r, adjacent_boundary (l ++ a :: b :: r) = None -> is_boundary a && is_boundary b = false.
 Proof. exact adjacent_boundary_none. Qed.
 Print Assumptions C06_adjacent_boundary_none.
+
+From WaxProofs Require Import FuelFacts.
+
+(* the two breadth-first traversals of the rule checker (the level-order enumeration used by the boundary, bounds and size
+   rules, and the queue of the branch rules) are bounded by explicit fuel in the model; the fuel is adequate for every tree:
+   more fuel never changes the result, so no node is left unvisited and no verdict is an artefact of the bound *)
+Theorem C06_level_order_fuel_adequate : forall t k, bfs_levels (tsize t + k) [t] = bfs t.
+Proof. exact bfs_fuel_adequate. Qed.
+Print Assumptions C06_level_order_fuel_adequate.
+
+Theorem C06_branch_rules_fuel_adequate : forall t k, branch_loop (S (tsize t) + k) [(outer_default, t)] = rule_branch t.
+Proof. exact rule_branch_fuel_adequate. Qed.
+Print Assumptions C06_branch_rules_fuel_adequate.
+
+(* the enumeration reaches every node, so the two rules above hold at every node of a glob that builds
+   ([sub x t]: x is t or a descendant of t) *)
+Theorem C06_built_bounds_ordered_everywhere :
+  forall t, check t = Ok None -> forall x, sub x t -> bad_bounds x = false.
+Proof. exact built_bounds_everywhere. Qed.
+Print Assumptions C06_built_bounds_ordered_everywhere.
+
+Theorem C06_built_no_adjacent_boundary_everywhere :
+  forall t, check t = Ok None -> forall sp ts, sub (TCat sp ts) t -> adjacent_boundary ts = None.
+Proof. exact built_no_adjacent_boundary_everywhere. Qed.
+Print Assumptions C06_built_no_adjacent_boundary_everywhere.
